@@ -210,7 +210,10 @@ def fixture(eng, params, prefixes_without_delim=True):
     assume_strict(eng, recs)
     delim = get_delim(eng, params.get("symdelim", False), recs, no_delim_in_prefixes=False)
     if prefixes_without_delim:
-        eng.assume(And([z3.Not(z3.Contains(_s(p), _s(delim))) for p in all_p(recs)]))
+        # quantifier precondition "no CURIE prefix contains the delimiter"; for a multi-character delimiter this is
+        # read as "prefix ++ delimiter contains the delimiter only at its end" (otherwise the CURIE syntax itself is
+        # ambiguous, e.g. prefix "-_" with delimiter "__"), which coincides for single-character delimiters.
+        eng.assume(And([first_occurrence(p, delim) for p in all_p(recs)]))
     c = build(eng, recs, delim)
     return recs, delim, c
 
